@@ -40,7 +40,8 @@ def printed(r):
 
 
 def gen_api_network(rng):
-    pool = ["H", "H2", "C", "O", "CO", "OH", "H2O", "He", "HCO+", "H3+", "e-", "#CO", "#H2O", "GRAIN0", "Si++++", "CH3OH", "C10H2"]
+    pool = ["H", "H2", "C", "O", "CO", "OH", "H2O", "He", "HCO+", "H3+", "e-", "#CO", "#H2O", "GRAIN0", "Si++++", "CH3OH", "C10H2",
+            "CH3COOCH2CH3+", "CH3CH2CH2CH2OH", "CH3CH2CH2CH2OH+", "C10H2N2O2Si2++", "#CH3COOCH2CH3"]      # names beyond the 12-column slot
     rl = []
     for i in range(rng.randint(1, 10)):
         re_ = [rng.choice(pool) for _ in range(rng.choice([1, 2, 2, 3]))]
